@@ -13,15 +13,17 @@ import vlib
 PID = "C07"
 
 ALL_MUTS = ["trunc_before", "trunc_before_fix", "trunc_inside", "trunc_inside_fix", "len_0", "len_m1", "len_p1",
-            "len_max", "count_0", "count_p1", "count_max", "tag_unknown", "dup", "dup_fill", "empty"]
+            "len_max", "count_0", "count_p1", "count_max", "tag_unknown", "dup", "dup_fill", "dup_fill_empty", "empty"]
 
 DECODERS = ["rtp", "rtcp", "stun", "dtls_record", "dtls_hsmsg", "dtls_clienthello", "dtls_serverhello", "dtls_hvr",
-            "dtls_ske", "dtls_cert", "dtls_cke", "dtls_finished", "dcep"]
+            "dtls_ske", "dtls_cert", "dtls_cke", "dtls_finished", "dcep", "sdp", "candidate"]
 
 # groups of entry points run as separate TLC + harness passes (label, entries, MaxFeeds, shards)
+LIVE = ["turn_udp", "turn_tcp"]
+
 TIERS = {
-    "quick": [("decoders", DECODERS, 1, 4)],
-    "thorough": [("decoders", DECODERS, 1, 8)],
+    "quick": [("decoders", DECODERS, 1, 4), ("live", LIVE, 1, 8)],
+    "thorough": [("decoders", DECODERS, 1, 8), ("live", LIVE, 1, 8)],
 }
 VARIANTS = {"quick": 2, "thorough": 8}
 
@@ -81,7 +83,7 @@ def classify(ck, rows, case_rows, stats):
             if not r["conforms"]:
                 raise vlib.ToolError(f"genuine {r['tpl']} does not conform to its grammar table: {r['detail']}")
             if r["res"] != "value":
-                raise vlib.ToolError(f"genuine {r['tpl']} is not accepted by {r['entry']}: {r['res']} {r['detail']}")
+                raise vlib.ToolError(f"genuine {r['tpl']} is not accepted by {r['entry']} {r.get('phase', '')}: {r['res']} {r['detail']}")
             stats["templates"] += 1
     seen = set()
     for r in rows:
@@ -93,11 +95,15 @@ def classify(ck, rows, case_rows, stats):
         stats["by_res"][res] = stats["by_res"].get(res, 0) + 1
         if res in SKIP_RES:
             continue
-        if res in ("unsupported", "no_template"):
-            raise vlib.ToolError(f"harness cannot execute case {r['case']}: {res} {r['entry']} {r['tpl']}")
+        if res in ("unsupported", "no_template", "setup_failed"):
+            raise vlib.ToolError(f"harness cannot execute case {r['case']}: {res} {r['entry']} {r['tpl']} {r.get('detail', '')[:300]}")
         stats["executed"] += 1
         stats["distinct"].add((r["entry"], r.get("phase"), r["tpl"], r["field"], r["mut"]))
         post = r.get("post")
+        if r.get("processed") is False:
+            # beyond the listed property: the endpoint gave no sign of life after the input (e.g. it is waiting for
+            # the rest of a truncated TCP frame); the property only asks that it does not crash, hang or bloat
+            stats["silent"] = stats.get("silent", 0) + 1
         if res in case["allowed"]["res"] and (post is None or post in case["allowed"]["post"]):
             if len(ck.cov["samples"]) < 6 and r["mut"] in ("len_max", "trunc_inside_fix", "dup_fill"):
                 ck.cov["samples"].append({k: r.get(k) for k in ("entry", "phase", "tpl", "field", "mut", "res", "detail", "in_len", "alloc", "cpu_us")})
@@ -145,6 +151,7 @@ def run(tier):
                       "and operations on accepted packets must not panic")
     ck.cov["outcomes"] = stats["by_res"]
     ck.cov["templates_conforming"] = stats["templates"]
+    ck.cov["silent_after_input"] = stats.get("silent", 0)
     ck.assumptions += [
         "exploration level: model-generated shape classes of each wire grammar, not all byte strings up to 64 KiB",
         "the grammar tables in spec/InputsGrammar.tla are the trusted description of each format; every genuine message "
